@@ -317,6 +317,10 @@ impl Vals {
     }
     /// correction field in 2^-16 ns units
     pub fn corr(&self, name: &str) -> i64 {
+        // "=<decimal>": a literal value in 2^-16 ns
+        if let Some(lit) = name.strip_prefix('=') {
+            return lit.parse::<i64>().expect("literal correction");
+        }
         let (base, class) = match name.split_once('#') {
             Some((b, c)) => (b, c),
             None => (name, ""),
